@@ -5,15 +5,15 @@ wt=$1; n=$2; pid=$3; shift 3
 cd $wt || exit 2
 git checkout -q -- brax
 git apply patch$n.diff || { echo "APPLY FAILED"; exit 2; }
-PYTHONPATH=$wt timeout 600 /venv/bin/python demo$n.py > /tmp/demo_with.log 2>&1; with=$?
-PYTHONPATH=$wt timeout 3000 /venv/bin/python -m pytest -q -p no:cacheprovider -x "$@" > /tmp/tests_with.log 2>&1; trc=$?
+PYTHONPATH=$wt timeout 600 /venv/bin/python demo$n.py > /tmp/demo_with_$pid.log 2>&1; with=$?
+PYTHONPATH=$wt timeout 3000 /venv/bin/python -m pytest -q -p no:cacheprovider -x "$@" > /tmp/tests_with_$pid.log 2>&1; trc=$?
 git checkout -q -- brax
-PYTHONPATH=$wt timeout 600 /venv/bin/python demo$n.py > /tmp/demo_without.log 2>&1; without=$?
-echo "candidate $pid-$n: demo_with_patch_exit=$with demo_without_exit=$without tests_rc=$trc ($(tail -1 /tmp/tests_with.log))"
+PYTHONPATH=$wt timeout 600 /venv/bin/python demo$n.py > /tmp/demo_without_$pid.log 2>&1; without=$?
+echo "candidate $pid-$n: demo_with_patch_exit=$with demo_without_exit=$without tests_rc=$trc ($(tail -1 /tmp/tests_with_$pid.log))"
 if [ $with -eq 1 ] && [ $without -eq 0 ] && [ $trc -eq 0 ]; then
   d=/verif/seeded/$pid-${SEEDPREFIX:-}$n; mkdir -p $d
   cp patch$n.diff $d/patch.diff; cp demo$n.py $d/demo.py; cp meta$n.json $d/agent_meta.json
-  echo "$@" > $d/tests_run.txt; tail -1 /tmp/tests_with.log >> $d/tests_run.txt
+  echo "$@" > $d/tests_run.txt; tail -1 /tmp/tests_with_$pid.log >> $d/tests_run.txt
   echo CONFIRMED
 else
   echo NOT-CONFIRMED
